@@ -547,6 +547,12 @@ func TestC04Sentences(t *testing.T) {
 		sg := text + g
 		r.Case("G:"+sg, true, "sentence-plus-garbage", "garbage:"+statusName(refparse.Classify(sg)))
 		r.Check(t, diffParse(sg), "c04", C04Case{Text: sg})
+		if coin(t, "garbage-cli", 12) {
+			// the command adds its own glue around the parser (what it does with the lexer's error)
+			cc := C04Case{Text: sg, CLI: true}
+			r.Case("CLI:"+sg, true, "through-cli", "garbage-through-cli")
+			r.Check(t, checkC04(cc), "c04", cc)
+		}
 	})
 }
 
